@@ -38,7 +38,7 @@ OBLIGATIONS += [
     Ob(name='C15.O5.bp_register_signal', harness=BP, entry='h_register_signal', defines=('_LGPL_SOURCE',), unwind=9, unwindset=AA, min_covers=1, checks=CKL, timeout=600, tier='B', bound='arena empty; one signal, delivered between entry and the moment SIG_BLOCK takes effect; handler = nested real urcu_bp_register',
        functions=('urcu_bp_register',), desc='bp automatic registration interrupted by a signal whose handler registers the thread (nested real call) just before signals get blocked: the re-check after blocking notices it - exactly one slot, one registry entry, mask and lock restored'),
 ]
-OBLIGATIONS += [o for o in _c01.OBLIGATIONS if o.name.startswith('C01.O5.') or o.name.startswith('C01.O4.')]
+OBLIGATIONS += [o for o in _c01.OBLIGATIONS if o.name.startswith('C01.O5.') or o.name.startswith('C01.O4.') or o.name.startswith('C01.O3.qsbr.')]
 META = {
     'level': 'other',
     'explanation': 'Contracts decide: the list primitives are position-independent; explicit registration/unregistration (memb, mb, qsbr) is one list operation inside one registry-lock critical section, from whichever list currently holds the node, with the qsbr offline/online ordering; the bp arena never moves or loses a slot, reuses freed slots and doubles; bp registration runs with all signals blocked under the lock. Bounded: a thread registering while a grace period has dropped the lock is still registered afterwards (real synchronize_rcu + scan), plus the C01 scan / skeleton obligations. That each grace period waits for exactly the registered threads over all interleavings is not decided.',
